@@ -52,6 +52,7 @@ def jackknife_bandwidths(data, bandwidths, kernel="gaussian"):
         The total likelihood of unobserved data over all jackknife samplings and all
         time series in the dataset for each bandwidth.
     """
+    data = [np.asarray(x) for x in data]
     result = np.zeros(bandwidths.shape[0])
     for j in range(bandwidths.shape[0]):
         kde = KernelDensity(bandwidth=bandwidths[j], kernel=kernel)
@@ -120,6 +121,7 @@ class KDEVectorizer(BaseEstimator, TransformerMixin):
 
     def transform(self, X):
         check_is_fitted(self, ["bandwidth_", "evaluation_grid_"])
+        X = [np.asarray(sample) for sample in X]
 
         result = np.empty((len(X), self.n_components), dtype=np.float64)
 
